@@ -1,5 +1,20 @@
 /-
 C15 — well-formed lexemes are classified correctly regardless of neighbours and layout.
+
+Classes, well-formedness `Lexeme.WF`, the side condition `Lexeme.follows` (= ¬`needsSep`) and the
+list of EXCLUSIONS are in `Oq3/Ref/Lexeme.lean`.  Everything is for arbitrary `rest : List Char`
+and arbitrary class functions `uc` satisfying `AsciiUC uc` (`Oq3/Lemmas/LexLocal.lean`: on ASCII,
+XID_Start = letters and XID_Continue = letters/digits/`_`; no `is_whitespace` character is
+XID_Start, XID_Continue or a non-ASCII emoji) — finite facts checked against the real tables at
+run time.
+
+(1) `locality` (= `local_word`, `local_hardware`, `local_int`, `local_radixInt`, `local_float`,
+    `local_str`, `local_punct`, `local_pragma`, `local_annotation`, `local_dim`, `local_version`)
+    and `local_trivia`: `advance_token` on `l.text ++ rest` returns exactly the token of `l`.
+(2) `keyword_table`, `non_keyword_ident`, `keywords_ascii`, `asciiWord_wf`.
+(3) `lexemes_roundtrip` (full: all classes including pragma, annotation and version lexemes),
+    `lexemes_raw_tokens`, `tokenize_layoutK` (the same with an arbitrary continuation).
+(4) `trivia_irrelevant`.
 -/
 import Oq3.Lemmas.LexLocal
 import Oq3.Lemmas.Lexed
